@@ -96,7 +96,7 @@ def flankSeq (peakCentred : Bool) (rises decays : List Rat) : List Rat :=
 clamped at 0. -/
 def ampConsSpec (fl : List Rat) (c : Nat) : F :=
   let g := fun i => fl.getD i 0
-  let v := F.nanmin [ratioMinMax (g (2*c - 1)) (g (2*c)), ratioMinMax (g (2*c)) (g (2*c + 1)), ratioMinMax (g (2*c + 1)) (g (2*c + 2))]
+  let v := F.nanmin [ratioMinMax (g (2*c)) (g (2*c + 1)), ratioMinMax (g (2*c + 1)) (g (2*c + 2)), ratioMinMax (g (2*c - 1)) (g (2*c))]
   if v.neg? then .fin 0 else v
 
 /-- strictly increasing / decreasing step counts, stated directly. -/
